@@ -8,6 +8,7 @@ import (
 	"flag"
 	"fmt"
 	"os"
+	"strconv"
 	"strings"
 	"time"
 	"unicode/utf8"
@@ -86,11 +87,27 @@ type enumerator struct {
 	sampleEvery  int64
 }
 
+// onlyIndex (VERIF_ONLY_INDEX): re-execute exactly one program of the deterministic enumeration (replay).
+var onlyIndex = func() int64 { n, _ := strconv.ParseInt(os.Getenv("VERIF_ONLY_INDEX"), 10, 64); return n }()
+
+var curIndex int64
+
 func (en *enumerator) program(p seqx.Program, site string) {
 	en.idx++
+	if onlyIndex != 0 {
+		if en.idx != onlyIndex {
+			return
+		}
+		out := seqx.Run(p)
+		fmt.Printf("program #%d [%s]\n  %s\n  output: %q\n  panic: %q\n", en.idx, site, p, seqx.Render(out.Lines), out.Panic)
+		curIndex = en.idx
+		en.check(p, out)
+		return
+	}
 	if en.idx%int64(en.n) != int64(en.shard) {
 		return
 	}
+	curIndex = en.idx
 	out := seqx.Run(p)
 	en.siteHits[site]++
 	en.r.Transitions += int64(len(p.Fields) + len(p.Steps) + 1)
@@ -174,7 +191,7 @@ func runC01() {
 			r.Eval(string(line), nontrivial)
 			if _, err := checkLine(line); err != nil {
 				sig, key := classifyC01(p, line, err)
-				r.Violation(sig, key, fmt.Sprintf("not one well-formed JSON object on one line: %v\n  output : %q\n  program: %s", err, line, p), p.String())
+				r.Violation(sig, key, fmt.Sprintf("not one well-formed JSON object on one line: %v\n  output : %q\n  program: %s", err, line, p), map[string]interface{}{"program": p.String(), "tier": tier, "index": curIndex, "replay": fmt.Sprintf("VERIF_ONLY_INDEX=%d VERIF_WORKERS=1 bin/check C01 %s", curIndex, tier)})
 			}
 		}
 		A, S := en.alpha.Full, en.alpha.Structural
